@@ -452,7 +452,7 @@ func c11Floats() []uint64 {
 		add3(s * (0x1p128 - 0x1p103))
 		add3(s * 0x1p128)
 		add3(s * 0x1p-149)
-		add3(s * 0x1p-150)  // tie between 0 and the smallest subnormal: to 0
+		add3(s * 0x1p-150)   // tie between 0 and the smallest subnormal: to 0
 		add3(s * 0x1.8p-149) // tie between 1 and 2 ulps: to 2
 		add3(s * 0x1.8p-148) // 3 ulps exactly
 		add3(s * 0x1p-126)
